@@ -51,10 +51,62 @@ def check(ctx):
         if q and ((weq and (rot, th) != (0, 1)) or (sg == 0.3 and g == 3.0) or (e == 100e3 and rot not in (0, 1)) or (lazy and th != 1)):
             continue
         cases.append({"crystal": cr, "rot": rot, "energy": e, "sg_max": sg, "g_max": g, "th": th, "lazy": lazy, "wave_eq": weq})
-    ctx.run(cases, "run_case", rule="one case per parameter combination; non-trivial = more than one beam is excited")
+    # several lazy results evaluated in ONE dask graph: every subset (size >= 2) of the orientation series, and two energies / thickness
+    # lists of one orientation, must give what each member gives on its own
+    for cr in (CRYSTALS[:2] if q else CRYSTALS):
+        for e in ((100e3,) if q else (100e3, 200e3)):
+            cases.append({"kind": "joint", "crystal": cr, "energy": e, "sg_max": 0.1, "g_max": 2.0})
+    ctx.run(cases, "run_case", rule="one case per parameter combination; non-trivial = more than one beam is excited | joint: all subsets of 4 orientations + "
+            "(energy, thickness) variants computed in one dask.compute call vs separately")
+
+
+def run_joint(c):
+    import dask
+
+    import abtem
+
+    viol = []
+    atoms = crystal(c["crystal"])
+
+    def members():
+        out = []
+        for i, rot in enumerate(ROT):
+            for e, th in (((c["energy"], (0.0, 50.0, 200.0)),) if i else ((c["energy"], (0.0, 50.0, 200.0)), (c["energy"] * 1.5, (0.0, 50.0, 200.0)), (c["energy"], (30.0, 90.0)))):
+                sf = abtem.bloch.StructureFactor(atoms, g_max=2 * c["g_max"])
+                bw = abtem.bloch.BlochWaves(sf, energy=e, sg_max=c["sg_max"], g_max=c["g_max"])
+                if rot is not None:
+                    bw = bw.rotate(*rot, degrees=True)
+                    if getattr(bw, "ensemble_shape", ()):
+                        continue
+                out.append(("rot%d/%.0fkeV/%d thicknesses" % (i, e / 1e3, len(th)), bw, list(th)))
+        return out
+
+    ms = members()
+    eager = [np.asarray(bw.calculate_diffraction_patterns(th, lazy=False).array, dtype=np.float64) for _, bw, th in ms]
+    tr = len(ms)
+    n = len(ms)
+    subsets = [s_ for r in range(2, n + 1) for s_ in itertools.combinations(range(n), r)]
+    for sub in subsets:
+        lazies = [ms[i][1].calculate_diffraction_patterns(ms[i][2], lazy=True) for i in sub]  # fresh lazy objects for every joint evaluation
+        got = dask.compute(*[x.array for x in lazies])
+        tr += 1
+        for i, g in zip(sub, got):
+            g = np.asarray(g, dtype=np.float64)
+            if g.shape != eager[i].shape:
+                viol.append({"key": "joint-compute/shape", "msg": "computed together with %r: member %s has shape %r, on its own %r (%s)" % ([ms[j][0] for j in sub if j != i], ms[i][0], g.shape, eager[i].shape, c)})
+                break
+            d = float(np.abs(g - eager[i]).max())
+            if d > 1e-6:
+                viol.append({"key": "joint-compute/values", "msg": "computed together with %r: member %s differs from its own result by %.3g (%s)" % ([ms[j][0] for j in sub if j != i], ms[i][0], d, c)})
+                break
+        if len(viol) >= 2:
+            break
+    return {"viol": viol[:2], "obs": "%d members, %d subsets" % (n, len(subsets)), "nt": True, "tr": tr, "st": len(subsets), "ref": tr}
 
 
 def run_case(c):
+    if c.get("kind") == "joint":
+        return run_joint(c)
     import abtem
     from abtem.bloch.dynamical import calculate_scattering_matrix, plane_wave_coefficients
 
